@@ -12,7 +12,7 @@ Open Scope R_scope.
 Ltac rops := cbn beta iota zeta delta
   [Num.T Num.zero Num.one Num.add Num.sub Num.mul Num.div Num.neg Num.ltb Num.leb Num.eqb Num.ofZ RNum
    gtb geb neqb pw absN minN
-   f_exp f_log f_sqrt f_lgamma f_tan f_sin f_pi f_euler_gamma f_isfinite f_isinf f_lit RF].
+   f_exp f_log f_sqrt f_lgamma f_tan f_sin f_log1p f_expm1 f_pi f_euler_gamma f_isfinite f_isinf f_lit RF].
 
 (** ** relations between the result at the original scale and the result at the new scale *)
 Definition rel_en {A : Type} (P : A -> A -> Prop) (r r' : exc (nanv A)) : Prop :=
